@@ -233,14 +233,65 @@ def run_hypothesis(sub, tier, seed, shard, nshards, rec):
     n = int(math.ceil(sub.examples[tier] / float(nshards)))
     strat = sub.strategy(tier)
 
+    guard = ShrinkGuard(rec, tier)
+
     @hypothesis.seed(shard_seed(seed, shard))
     @hyp_settings(n)
     @given(strat)
     def test(case):
+        if guard.exhausted():
+            return
         rec.begin(case)
-        sub.check(case, rec)
+        with guard:
+            sub.check(case, rec)
 
-    test()
+    guard.run(test)
+
+
+class ShrinkGuard(object):
+    """Bounds the time Hypothesis spends shrinking a failure.
+
+    From the first failure on, every failing case is remembered (Hypothesis only moves to smaller ones);
+    once the budget is used up the remaining shrink attempts return immediately, and whatever Hypothesis
+    concludes from that (usually a Flaky complaint on its final replay) is replaced by the smallest
+    failing case actually observed.  A time budget never *creates* a violation: it only ends shrinking.
+    """
+
+    def __init__(self, rec, tier):
+        self.rec = rec
+        self.budget = 60.0 if tier == "quick" else 240.0
+        self.first = None
+        self.best = None
+
+    def exhausted(self):
+        return self.first is not None and time.time() - self.first > self.budget
+
+    def __enter__(self):
+        return self
+
+    def __exit__(self, et, ev, tb):
+        if et is not None and issubclass(et, Violation):
+            if self.first is None:
+                self.first = time.time()
+            self.best = (json.loads(json.dumps(jsonable(self.rec.current), default=str)), str(ev), ev.sig)
+        return False
+
+    def run(self, fn):
+        try:
+            fn()
+        except Violation:
+            if self.best is not None:
+                self.rec.current = self.best[0]
+            raise
+        except BaseException:
+            if self.best is None:
+                raise
+            self.rec.current = self.best[0]
+            raise Violation(self.best[1], sig=self.best[2])
+        if self.best is not None:
+            # the budget ran out and Hypothesis ended without re-raising: report what was seen
+            self.rec.current = self.best[0]
+            raise Violation(self.best[1], sig=self.best[2])
 
 
 def run_enumeration(sub, tier, seed, shard, nshards, rec):
